@@ -116,13 +116,17 @@ def check_prog(variant, spec, rg, stats, case1):
 
 
 # ---- gen_coords connectivity gate
-GATE_SHAPES = ["connected-1res", "connected-2res", "split-between-residues", "split-inside-residue-settles",
+GATE_SHAPES = ["split-three-parts", "split-four-parts", "split-chain-middle", "connected-1res", "connected-2res", "split-between-residues", "split-inside-residue-settles",
                "split-inside-residue-nobonds", "single-atom", "connected-by-constraint"]
 
 GATE_ITP = {
     "connected-1res": ("[ atoms ]\n1 P1 1 R a 1\n2 P1 1 R b 2\n[ bonds ]\n1 2 1 0.3 100\n", True),
     "connected-2res": ("[ atoms ]\n1 P1 1 R a 1\n2 P1 2 R a 2\n[ bonds ]\n1 2 1 0.3 100\n", True),
     "split-between-residues": ("[ atoms ]\n1 P1 1 R a 1\n2 P1 2 R a 2\n", False),
+    "split-three-parts": ("[ atoms ]\n1 P1 1 R a 1\n2 P1 2 R a 2\n3 P1 3 R a 3\n", False),
+    "split-four-parts": ("[ atoms ]\n1 P1 1 R a 1\n2 P1 2 R a 2\n3 P1 3 R a 3\n4 P1 4 R a 4\n[ bonds ]\n", False),
+    "split-chain-middle": ("[ atoms ]\n1 P1 1 R a 1\n2 P1 2 R a 2\n3 P1 3 R a 3\n4 P1 4 R a 4\n5 P1 5 R a 5\n6 P1 6 R a 6\n"
+                           "[ bonds ]\n1 2 1 0.3 100\n3 4 1 0.3 100\n5 6 1 0.3 100\n", False),
     "split-inside-residue-settles": ("[ atoms ]\n1 P1 1 R a 1\n2 P1 1 R b 2\n3 P1 1 R c 3\n[ settles ]\n1 1 0.1 0.16\n", False),
     "split-inside-residue-nobonds": ("[ atoms ]\n1 P1 1 R a 1\n2 P1 1 R b 2\n", False),
     "single-atom": ("[ atoms ]\n1 P1 1 R a 1\n", True),
